@@ -14,13 +14,10 @@ def main():
         pass
     nv.build_lean()
     nv.build_codec('a')
+    nv.build_codec('h')
     nv.build_util()
+    nv.build_pair('x')
     nv.build_single('life', 'life_main.cpp')
-    try:
-        import engines
-        engines.build_all()
-    except ImportError:
-        pass
     print('setup ok')
 
 if __name__ == '__main__':
